@@ -126,7 +126,10 @@ def run(seed: int, n: int, modules: list[str], only: list[str] | None = None):
                 summary['unsupported'].append({'contract': rec['contract'], 'what': str(e)[:200]})
                 continue
             nat = tuple(case['result']) if isinstance(case['result'], list) else case['result']
-            if list(res) == list(nat):
+            if '$symbolic' in json.dumps(res):
+                # the result involves an uninterpreted model function (e.g. the stdlib hash model): not comparable
+                summary['uncomparable'] = summary.get('uncomparable', 0) + 1
+            elif list(res) == list(nat):
                 summary['agree'] += 1
             else:
                 summary['disagreements'].append({'contract': rec['contract'], 'args': case['args'],
